@@ -166,6 +166,12 @@ class LbWorld(object):
     msg = MethodCallMessage(None, 'm', (), {})
     msg.properties[MessageProperties.Endpoint] = None
     msg.properties['__rid'] = rid
+    evt = None
+    if 'TO' in self.p['ops']:
+      from scales.message import Deadline
+      from scales.observable import Observable
+      evt = Observable()
+      msg.properties[Deadline.EVENT_KEY] = evt
     stack = ClientMessageSinkStack()
     stack.Push(self.term, rid)
     nreq = len(self.reg.request_log)
@@ -178,7 +184,7 @@ class LbWorld(object):
       from scales.loadbalancer.base import NoMembersError
       if self.loading:
         # balancer still opening: the request legitimately waits
-        self.requests.append({'rid': rid, 'serial': None, 'done': False, 'stack': stack, 'waiting': True})
+        self.requests.append({'rid': rid, 'serial': None, 'done': False, 'stack': stack, 'waiting': True, 'evt': evt})
         return
       if before or after:
         self.v('C03.not-dispatched', 'request %d reached no member although the balancer had %d active members; response %r'
@@ -248,6 +254,16 @@ class LbWorld(object):
       self._op_C(serial)
     finally:
       self.term.on_response = None
+
+  def _op_TO(self, rid):
+    """The deadline of a request that is still waiting for the balancer to open fires (what ClientTimeoutSink does: set the
+    deadline event, answer the caller with TimeoutError)."""
+    from scales.message import MethodReturnMessage, TimeoutError
+    r = next(r for r in self.requests if r['rid'] == rid)
+    r['done'] = True
+    r['timed_out'] = True
+    r['evt'].Set(True)
+    r['stack'].AsyncProcessResponseMessage(MethodReturnMessage(error=TimeoutError()))
 
   def _op_Down(self, e):
     from scales.constants import ChannelState
@@ -336,6 +352,10 @@ class LbWorld(object):
             ops.append(['CX', r['serial']])
           if 'CD' in alpha:
             ops.append(['CD', r['serial']])
+    if 'TO' in alpha:
+      for r in self.requests:
+        if r.get('waiting') and not r['done'] and r.get('evt') is not None:
+          ops.append(['TO', r['rid']])
     if 'Down' in alpha:
       for n in self.heap_nodes():
         if self.is_open(n.channel) and len(self.downed) < p.get('max_down', 2):
@@ -392,11 +412,16 @@ class LbWorld(object):
       self.lp.errors = []
     # requests issued while the balancer was still opening are dispatched once it opens
     for r in self.requests:
-      if r.get('waiting') and r['serial'] is None and not r['done']:
+      if r.get('waiting') and r['serial'] is None and (not r['done'] or r.get('timed_out')):
         for (ev, s2, rid2) in self.reg.request_log:
           if rid2 == r['rid']:
             r['serial'] = s2
             r['waiting'] = False
+            if r.get('timed_out'):
+              self.v('C04.load', 'request %d timed out while the balancer was opening (its caller has TimeoutError) and was sent to '
+                     'channel #%d when the balancer opened: that member is charged with a request nobody waits for' % (rid2, s2), kind=self.kind)
+              self.v('C12.sent-after-timeout', 'request %d was waiting for the balancer to open when its caller was handed TimeoutError; '
+                     'when the balancer opened it was sent on to channel #%d' % (rid2, s2), kind=self.kind)
     if self.p.get('c06') and op is not None:
       self._c06(name, op)
     in_heap = {}
@@ -584,7 +609,8 @@ class LbWorld(object):
     drains = tuple(sorted((self.ep_idx(self.nodes[s].endpoint), self.outstanding(s), min(self.chan(s).close_calls, 1),
                            self.removed[s]['at_drain'], self.nodes[s].load - HB.Idle if self.nodes[s].load < 0 else ('dn', self.nodes[s].load))
                           for s in self.removed if self.outstanding(s) > 0))
-    waiting = sum(1 for r in self.requests if r.get('waiting') and not r['done'])
+    waiting = (sum(1 for r in self.requests if r.get('waiting') and not r['done']),
+               sum(1 for r in self.requests if r.get('waiting') and r.get('timed_out')))      # still parked in the balancer, caller already answered
     k = [self.kind, heap, tuple(dq), drains, tuple(sorted(self.members)), tuple(self.queued), self.loading, waiting,
          tuple(sorted(self.ep_idx(e) for e in lb._servers.keys())), lb._open, len(self.downed)]
     if self.kind == 'aperture':
